@@ -23,16 +23,17 @@ Min(a, b) == IF a < b THEN a ELSE b
 \* Sub(s, start, length): runes [start, start+length), to the end for -1
 SubDef(s, st, ln) == IF s = <<>> THEN <<>>
                      ELSE IF ln = 0 THEN <<>>
-                     ELSE IF ln = -1 THEN Idx(st + 1, Len(s))
+                     ELSE IF ln = -1 \/ ln >= Len(s) THEN Idx(st + 1, Len(s))
                      ELSE Idx(st + 1, Min(Len(s), st + ln))
 \* Mask(s, mask, start, end): first `start` and last `end` runes kept, the rest replaced
 MaskDef(s, st, en, multi) == LET l == Len(s)  ml == l - st - en IN
-                             IF ml <= 0 THEN Idx(1, l)
+                             IF st >= l \/ en >= l \/ ml <= 0 THEN Idx(1, l)
                              ELSE Idx(1, st) \o (IF multi THEN <<-1>> ELSE [i \in 1..ml |-> 0]) \o Idx(l - en + 1, l)
 \* SubByDisplay(s, limit): longest prefix whose display width (1 per ASCII = 1-byte rune, 2 otherwise) fits
 RECURSIVE WidthOf(_, _)
 WidthOf(s, n) == IF n = 0 THEN 0 ELSE WidthOf(s, n - 1) + (IF s[n] = 1 THEN 1 ELSE 2)
-DisplayDef(s, lim) == LET ok == {n \in 0..Len(s) : WidthOf(s, n) <= lim}
+DisplayDef(s, lim) == IF lim >= 2 * Len(s) THEN Idx(1, Len(s)) ELSE
+                      LET ok == {n \in 0..Len(s) : WidthOf(s, n) <= lim}
                           best == CHOOSE n \in ok : \A m \in ok : m <= n
                       IN Idx(1, best)
 RevDef(s) == [i \in 1..Len(s) |-> Len(s) + 1 - i]
@@ -71,6 +72,15 @@ RECURSIVE Words(_)
 Words(m) == IF m = 1 THEN <<"l", "l", "d">> ELSE Words(m - 1) \o <<"u", "l", "l", "d">>
 LongIdentCases == \A m \in {8, 15, 16, 17, 20, 33, 70} : Emit([fn |-> "SnakeCamel", s |-> Words(m), a |-> <<>>, out |-> Words(m), valid |-> TRUE])
 
+\* arguments near the largest int (the runner replaces Huge by math.MaxInt, Huge - 1 by MaxInt - 1): "the rest of the
+\* string" idioms such as Sub(s, n, MaxInt); sums of two arguments must not wrap
+Huge == 2000000000      \* (stands for math.MaxInt: TLC integers have 32 bits)
+HugeCases == \A s \in SeqsUpTo(Widths, 3) :
+    /\ \A st \in {0, 1, 2, Huge} : \A ln \in {1, Huge - 1, Huge} : Emit(Case("Sub", s, <<st, ln>>, SubDef(s, st, ln)))
+    /\ \A st \in {0, 1, Huge} : \A en \in {0, 1, Huge} : (st = Huge \/ en = Huge) =>
+            Emit(Case("Mask", s, <<st, en, 0>>, MaskDef(s, st, en, FALSE)))
+    /\ \A lim \in {Huge - 1, Huge} : Emit(Case("SubByDisplay", s, <<lim>>, DisplayDef(s, lim)))
+
 \* lower-case snake_case identifiers: [a-z][a-z0-9]*(_[a-z][a-z0-9]*)*  over the classes l(etter) d(igit) u(nderscore)
 IsIdent(s) == /\ Len(s) >= 1 /\ s[1] = "l" /\ s[Len(s)] # "u"
               /\ \A i \in 1..Len(s) - 1 : s[i] = "u" => s[i + 1] = "l"
@@ -80,6 +90,7 @@ IdentCases == \A s \in Idents : Emit([fn |-> "SnakeCamel", s |-> s, a |-> <<>>, 
 ASSUME AllCases
 ASSUME IdentCases
 ASSUME LongCases
+ASSUME HugeCases
 ASSUME LongIdentCases
 Init == x = 0
 Next == x' = x
